@@ -47,6 +47,8 @@ ARITH_ITEMS = [
     dict(lean="orderedListUsableSize", name="usable_size", filter="detail::ordered_free_memory_list::usable_size", kind="fn"),
     dict(lean="smallListUsableSize", name="usable_size", filter="small_free_memory_list::usable_size", kind="fn"),
     dict(lean="growBlockSize", name="grow_block_size", filter="memory::growing_block_allocator", kind="fn"),
+    dict(lean="stackMinBlockSizeT", name="min_block_size", filter="memory::memory_stack", kind="fn"),
+    dict(lean="arenaMinBlockSizeT", name="min_block_size", filter="memory::memory_arena", kind="fn"),
 ]
 
 GUARD_ITEMS = [
